@@ -232,6 +232,16 @@ def run(ctx):
         if p.startswith('edp_client::fragmentation::') and ctx.F.bodies[p]['kind'] in ('Fn', 'AssocFn', 'Closure'):
             check_panics(ctx, P.B(p), 'C09.6-no-panic', reviewed=REVIEWED)
 
+    # premise of the reviewed `before - after` in cleanup_expired: between the two len() only retain touches the map
+    CE = P.B(FA + '::cleanup_expired')
+    if CE is not None:
+        ops = [(callee_of(t)[0] or '').rsplit('::', 1)[-1] for bb, t in CE.calls() if t['args'] and 'pending' in root_fields(CE, t['args'][0])]
+        if set(ops) <= {'len', 'retain', 'is_empty', 'iter', 'values', 'keys'}:
+            ctx.ok('C09.6-no-panic', 'premise:cleanup_expired', 'between the two len() calls the map is only shrunk (operations on pending: %s)' % ops)
+        else:
+            ctx.bad('C09.6-no-panic', 'premise:cleanup_expired', 'cleanup_expired also performs %s on `pending`: `before - after` may underflow' % sorted(set(ops) - {'len', 'retain'}), ctx.where(CE),
+                    key='PREMISE:%s::cleanup_expired:only-shrinks' % FA)
+
     # ---------------- clause 7: buffered continuations are transferred ------------------------------------------------
     ctx.rule('C09.7-transfer-buffered', 'when the total becomes known the buffered continuations are moved into their slots (same range and duplicate guards)', floor=1)
     B = ctx.body(FM + '::set_total_fragments')
